@@ -22,6 +22,9 @@ def pack(bits):
     return out or [0]
 
 
+_NTH = [0]
+
+
 def sample(kind, msg, odd=False, impolite=False, little=False):
     """impolite: the caller first encodes the message once, damages the returned word in place (channel simulation),
     extracts from the damaged word, damages what it extracted - and only then makes the calls that are recorded"""
@@ -33,6 +36,28 @@ def sample(kind, msg, odd=False, impolite=False, little=False):
     from okdmr.dmrlib.etsi.fec.vbptc_68_28 import VBPTC6828
     if little:
         msg = bitarray(msg.tolist(), endian="little")       # the same bits kept in a little-endian bitarray
+    _NTH[0] += 1
+    if _NTH[0] % 4 == 0:
+        # a receiver's life: verifications that FAIL come between the encodes (a short LC / embedded LC received with a wrong
+        # check value) - whatever a refused verification leaves behind in a shared calculator, the next encode is judged as always
+        bad = bitarray([(_NTH[0] >> k) & 1 for k in range(28)])
+        c8 = int(CRC8.calculate(bad.copy()))
+        for wrong in ((c8 + 1) & 0xFF, c8 ^ 0x80, (~c8) & 0xFF):
+            try:
+                CRC8.check(bad.copy(), wrong)
+            except Exception:  # noqa
+                pass
+        nine = bytes((_NTH[0] * 37 + k) & 0xFF for k in range(9))
+        try:
+            FiveBitChecksum.verify(nine, (FiveBitChecksum.calculate(nine) + 1) % 31)
+        except Exception:  # noqa
+            pass
+        try:
+            from okdmr.dmrlib.etsi.layer2.pdu.short_link_control import ShortLinkControl
+            slc = bitarray([0, 0, 0, _NTH[0] & 1]) + bad[:24] + bitarray([int(b) for b in format(c8 ^ 0x5A, "08b")])
+            ShortLinkControl.from_bits(slc)
+        except Exception:  # noqa
+            pass
     if impolite:
         if kind == "128_72":
             w0 = VBPTC12873.encode(msg.copy())
